@@ -433,20 +433,24 @@ SignerCtx(st, ht, idx) ==
     [ alg |-> st.alg, shape |-> st.otype, script |-> st.script, pos |-> st.pos, key |-> st.keys[1],
       sigs |-> {}, ht |-> ht, idx |-> idx, annex |-> None ]
 
-\* what must happen: the helper returns an error exactly when there is no
-\* digest; otherwise every signature it produced is by the listed key over
-\* the digest, and the spend executes under the consensus flags; under the
-\* standard verify flags it executes iff the hash type is a defined one and
-\* (witness v0) the key is compressed
-SignerExpect(tx, st, c) ==
-    LET d == Digest(tx, c)
-    IN [ digest |-> d,
-         api    |-> ApiArgs(c),
-         err    |-> d = DigestErr,
-         cons   |-> d # DigestErr,
-         std    |-> /\ d # DigestErr
-                    /\ (st.alg \in {"legacy", "v0"} => EcdsaDefined(c.ht))
-                    /\ (st.alg = "v0" => st.comp) ]
+\* what must happen.  hts[i] is the hash type signer i (keys[i]) signs with:
+\* the same for all signers of a one-call helper; the cosigners of a multisig
+\* that sign in rounds (each round merges the previous script) choose their
+\* own.  The helper returns an error exactly when a signer has no digest;
+\* otherwise signature i is by key i, carries hash type byte hts[i] and is
+\* over the digest OF THAT hash type, and the spend executes under the
+\* consensus flags; under the standard verify flags it executes iff every
+\* hash type is a defined one and (witness v0) the key is compressed
+SignerExpect(tx, st, c, hts) ==
+    LET ds == [i \in 1..Len(hts) |-> Digest(tx, [c EXCEPT !.ht = hts[i]])]
+        noDigest == \E i \in 1..Len(hts) : ds[i] = DigestErr
+    IN [ digests |-> ds,
+         api     |-> ApiArgs(c),
+         err     |-> noDigest,
+         cons    |-> ~noDigest,
+         std     |-> /\ ~noDigest
+                     /\ (st.alg \in {"legacy", "v0"} => \A i \in 1..Len(hts) : EcdsaDefined(hts[i]))
+                     /\ (st.alg = "v0" => st.comp) ]
 
 -----------------------------------------------------------------------------
 (* cases *)
@@ -507,12 +511,31 @@ PickByte(g) ==
 SignerHts(alg) == IF alg \in {"legacy", "v0"} THEN {0, 1, 2, 3, 129, 130, 131, 4, 163} ELSE {0, 1, 2, 3, 129, 130, 131, 4, 128}
 SignerTxs == IF Thorough THEN {<<1, 1, 1>>, <<2, 2, 1>>, <<2, 2, 2>>, <<3, 2, 3>>, <<2, 0, 1>>, <<3, 3, 2>>}
                          ELSE {<<2, 2, 2>>, <<3, 2, 3>>}
+IsMerged(st) == st.otype \in {"multisig-2of2-merged", "p2sh-multisig-2of3-merged"}
+
+SignerCase(tx, st, c, hts, order) ==
+    [kind |-> "signer", tx |-> tx, ctx |-> c, otype |-> st.otype, keys |-> st.keys, comp |-> st.comp, hts |-> hts, order |-> order]
+
+\* signing in rounds: every pair of defined hash types for the two cosigners
+\* (equal, different base type, same base type with a different ANYONECANPAY
+\* bit), a few undefined ones, either cosigner first, on transactions with
+\* at least two inputs (with one input ANYONECANPAY changes nothing but the byte)
+DefinedHts == {1, 2, 3, 129, 130, 131}
+MergePairs == {<<a, b>> : a \in DefinedHts, b \in DefinedHts} \cup {<<0, 0>>, <<4, 129>>, <<131, 163>>}
+MergeTxs   == {w \in SignerTxs : w[1] >= 2}
+
 PickSigner(g) ==
-    \E st \in {x \in SignerTypes : x.alg = g.alg}, ht \in SignerHts(g.alg), w \in SignerTxs :
-        LET tx == MkTx(w[1], w[2])
-            c  == SignerCtx(st, ht, w[3])
-        IN /\ case' = [kind |-> "signer", tx |-> tx, ctx |-> c, otype |-> st.otype, keys |-> st.keys, comp |-> st.comp]
-           /\ expect' = SignerExpect(tx, st, c)
+    \/ \E st \in {x \in SignerTypes : x.alg = g.alg /\ ~IsMerged(x)}, ht \in SignerHts(g.alg), w \in SignerTxs :
+          LET tx  == MkTx(w[1], w[2])
+              c   == SignerCtx(st, ht, w[3])
+              hts == [i \in 1..Len(st.keys) |-> ht]
+          IN /\ case' = SignerCase(tx, st, c, hts, "once")
+             /\ expect' = SignerExpect(tx, st, c, hts)
+    \/ \E st \in {x \in SignerTypes : x.alg = g.alg /\ IsMerged(x)}, pr \in MergePairs, w \in MergeTxs, order \in {"first-key-first", "last-key-first"} :
+          LET tx  == MkTx(w[1], w[2])
+              c   == SignerCtx(st, pr[1], w[3])
+          IN /\ case' = SignerCase(tx, st, c, pr, order)
+             /\ expect' = SignerExpect(tx, st, c, pr)
 
 Init == case = [kind |-> "root"] /\ expect = NoExpect
 
@@ -614,7 +637,21 @@ Lemmas == /\ LemmaFieldCommit /\ LemmaDegenerate /\ LemmaAlways /\ LemmaAnyoneCa
 \* signer cases
 LemmaSigner ==
     case.kind = "signer" =>
-        /\ (expect.err <=> expect.digest = DigestErr)
-        /\ (expect.std => expect.cons)
-        /\ (expect.cons <=> ~expect.err)
+        LET n == Len(case.keys)
+            hashed(i) == expect.digests[i][1] \in {"hash256", "tagged"}
+        IN /\ Len(case.hts) = n /\ Len(expect.digests) = n
+           /\ (expect.err <=> \E i \in 1..n : expect.digests[i] = DigestErr)
+           /\ (expect.std => expect.cons)
+           /\ (expect.cons <=> ~expect.err)
+           \* every signer's digest is the digest of the signer's own hash type ...
+           /\ \A i \in 1..n : expect.digests[i] = Digest(case.tx, [case.ctx EXCEPT !.ht = case.hts[i]])
+           \* ... and hash types that differ - be it only in the ANYONECANPAY bit -
+           \* never share a digest (the byte itself is hashed), unless both are
+           \* the constant of the SIGHASH_SINGLE bug
+           /\ \A i, j \in 1..n : (case.hts[i] # case.hts[j] /\ (hashed(i) \/ hashed(j))) => expect.digests[i] # expect.digests[j]
+           \* with more than one input ANYONECANPAY drops the other inputs
+           /\ \A i, j \in 1..n :
+                 (hashed(i) /\ hashed(j) /\ Len(case.tx.ins) > 1 /\ Acp(case.hts[i]) /\ ~Acp(case.hts[j]))
+                     => CommitsOf(expect.digests[i]) # CommitsOf(expect.digests[j])
+           /\ (case.order # "once" => n = 2 /\ Len(case.tx.ins) >= 2)
 =============================================================================
